@@ -14,6 +14,8 @@ use std::time::Duration;
 
 const BASE_NS: u64 = 1_000_000_000_000; // far from zero so that `Instant - Duration` never underflows
 static VIRT_NS: AtomicU64 = AtomicU64::new(BASE_NS);
+/// `begin_case` rewinds the cumulative virtual clock to `BASE_NS` once it is past this (2^62 ns, about 146 years)
+const CLOCK_REWIND_NS: u64 = 1 << 62;
 static VIRT_ON: AtomicBool = AtomicBool::new(true);
 static CASE_START_NS: AtomicU64 = AtomicU64::new(BASE_NS);
 /// wall time that passed inside synchronous code since the case began (not part of the op clock)
@@ -88,6 +90,17 @@ pub async fn advance(ms: u64, yields: usize) {
     advance_ns(ms * tick_ns(), yields).await
 }
 pub async fn advance_ns(ns: u64, yields: usize) {
+    // A very long advance (years) is made in stretches shorter than the span of tokio's timer wheel (2^36 ms, about 2.2
+    // years): jumping over several wheel spans at once with two or more timers beyond the span registered makes this
+    // tokio version's wheel crash (SIGSEGV in `Wheel::poll`). Real time does not jump either. Nothing is polled in
+    // between; timers that fall due on the way fire (wake their tasks) in order, as they would anyway.
+    const STRETCH_NS: u64 = (1 << 35) * 1_000_000;
+    let mut ns = ns;
+    while ns > STRETCH_NS {
+        VIRT_NS.fetch_add(STRETCH_NS, Ordering::SeqCst);
+        tokio::time::advance(Duration::from_nanos(STRETCH_NS)).await;
+        ns -= STRETCH_NS;
+    }
     VIRT_NS.fetch_add(ns, Ordering::SeqCst);
     tokio::time::advance(Duration::from_nanos(ns)).await;
     for _ in 0..yields {
@@ -274,6 +287,14 @@ pub fn begin_case() {
     ANN_LATE.lock().unwrap_or_else(|e| e.into_inner()).clear();
     SERIAL.store(0, Ordering::SeqCst);
     SKEW_NS.store(0, Ordering::SeqCst);
+    // The virtual clock is cumulative over the cases of one process (u64 nanoseconds: about 584 years). Cases that move
+    // it by decades (a waiter watched across tokio's 30-year far-future horizon) would exhaust that after a dozen or so,
+    // so once a quarter of the range is used up the clock is rewound between two cases — nothing of the previous case
+    // is alive here (its runtime and every future are gone), and no `Instant` is compared across cases. One case may
+    // thus span up to about 430 years; processes that never get that far (all ordinary ones) see no change.
+    if VIRT_NS.load(Ordering::SeqCst) > CLOCK_REWIND_NS {
+        VIRT_NS.store(BASE_NS, Ordering::SeqCst);
+    }
     CASE_START_NS.store(VIRT_NS.load(Ordering::SeqCst), Ordering::SeqCst);
     take_log();
 }
